@@ -53,8 +53,11 @@ def line_ops(g, l):
     if rt in ("L", "C"):
         # to_gfa2_s of L/C assigns an ID by design (conversion state): not in the read-only list
         ops += [("coords", lambda: (l.from_coords, l.to_coords)) if rt == "L" else ("pos", lambda: l.pos)]
+    if rt == "C":
+        ops += [("is_canonical", lambda: l.is_canonical())]
     if rt == "L":
-        ops += [("complement", lambda: str(l.complement())), ("is_canonical", lambda: l.is_canonical()), ("hash", lambda: hash(l)),
+        ops += [("canonicize", lambda: str(l.clone().canonicize())), ("canonicize.is_canonical", lambda: l.clone().canonicize().is_canonical()),
+                ("complement", lambda: str(l.complement())), ("is_canonical", lambda: l.is_canonical()), ("hash", lambda: hash(l)),
                 ("overlap.complement", lambda: str(l.overlap.complement())), ("overlap.complement2", lambda: str(l.overlap.complement().complement())),
                 ("len_ref", lambda: l.overlap.length_on_reference() if not gfapy.is_placeholder(l.overlap) else None),
                 ("len_qry", lambda: l.overlap.length_on_query() if not gfapy.is_placeholder(l.overlap) else None),
